@@ -19,7 +19,7 @@ PROPS = {
         assumptions=["message arrival order is whatever OpenMPI 4.1.4 produces on one shared-memory node", "only the merge repartitioner is available offline (no ParMETIS / PT-Scotch)",
                      "termination is observed through a watchdog; a hang that does not reproduce is reported as inconclusive"],
         min_nontrivial=60,
-        timeout={"quick": 1500, "thorough": 4 * 3600},
+        timeout={"quick": 1200, "thorough": 3600},  # a dead-lock of the code under test costs one job this long (then: inconclusive)
     ),
 }
 MANIFEST_TEXT = {
